@@ -389,9 +389,10 @@ theorem estep_keyErrorFinish (p : Pool) (t : Nat) : EStep p (p.keyErrorFinish t)
   unfold keyErrorFinish
   exact ((estep_of_eq p { p with lost := true }).trans (estep_modTask _ _ _)).trans (estep_finishTask _ t)
 
-theorem estep_workerNext (p : Pool) (t : Nat) : EStep p (p.workerNext t) := by
+theorem estep_workerNext (p : Pool) (t : Nat) (tk : PTask) : EStep p (p.workerNext t tk) := by
   unfold workerNext
-  exact ((estep_logEv p _).trans (estep_modTask _ _ _)).trans (estep_suspendTask _ _ _ (by simp))
+  exact (((estep_logEv p _).trans (estep_modTask _ _ _)).trans (estep_runHooks _ _ _)).trans
+    (estep_suspendTask _ _ _ (by simp))
 
 theorem estep_stepInEndCb (p : Pool) (t : Nat) (tk : PTask) : EStep p (p.stepInEndCb t tk) := by
   unfold stepInEndCb
